@@ -42,6 +42,12 @@ class Actors:
             return method
 
         ns = {m: make_method(m) for m in METHODS}
+        for m in config.get('pm', []):
+            # callbacks defined with functools.partialmethod: every lookup
+            # on the class yields a new function object
+            import functools
+            ns[m] = functools.partialmethod(ns[m])
+            interp.probes['partialmethod_callback'] += 1
         ns['_label'] = '?'
 
         def on_add(self, entity, world):
@@ -309,7 +315,9 @@ class Interp:
                 and not any(slot == s for slot, _ in self.cbstack)):
             self.fail('C10', 'called_after_gone', f'{lab}.{mname} called '
                       f'after the program dropped its last reference')
-        want_owner = getattr(getattr(type(obj), mname), '_owner', None)
+        import inspect
+        attr = inspect.getattr_static(type(obj), mname)
+        want_owner = getattr(getattr(attr, 'func', attr), '_owner', None)
         if self.last_owner != want_owner:
             self.fail('C03', 'wrong_method', f'{lab}.{mname}: the function '
                       f'of class H{self.last_owner} was called, the '
@@ -1093,6 +1101,8 @@ def gen_config(prop, rng, allow_base2=False):
         # listeners with value equality (think dataclasses): registration is
         # per object, whatever the objects compare like
         cfg['heq'] = 'equal' if r < .1 else 'unhashable'
+    if rng.random() < .12:
+        cfg['pm'] = [m for m in METHODS if rng.random() < .5] or ['a']
     if rng.random() < .25:
         cfg['returns'] = {str(s): rng.choice('TTF01sN') for s in range(n)
                           if rng.random() < .6}
@@ -1402,7 +1412,7 @@ PROBES = {
             'kwargs_only_dispatch', 'multi_class_dispatch',
             'dispatch_nobody_listens', 'overridden_callback_called',
             'callback_returned_value', 'redecorated_class',
-            'tricky_keyword_names'],
+            'tricky_keyword_names', 'partialmethod_callback'],
     'C04': ['fault_pos.first', 'fault_pos.middle', 'fault_pos.last',
             'release_aborted_by_raise', 'release_cut_by_nested_disable',
             'nested_enable_inside_release', 'raise_then_second_enable',
